@@ -106,6 +106,10 @@ fn victims() -> Vec<(&'static str, Op, bool)> {
         ("copy", Op::Extract { kind: XKind::Copy, checked: true, by: By::Key(1), dest: Dest::Absent }, true),
         ("copy_hash_unchecked", Op::Extract { kind: XKind::Copy, checked: false, by: By::Addr(a), dest: Dest::Absent }, true),
         ("hard_link", Op::Extract { kind: XKind::HardLink, checked: true, by: By::Key(1), dest: Dest::Absent }, true),
+        // onto an existing file of exactly the entry's length (other bytes): a failure to open or
+        // write it leaves a file that has the right size and the wrong bytes
+        ("copy_onto_same_length_file", Op::Extract { kind: XKind::Copy, checked: true, by: By::Key(1), dest: Dest::ExistingSameLength }, true),
+        ("copy_hash_unchecked_onto_same_length_file", Op::Extract { kind: XKind::Copy, checked: false, by: By::Addr(a), dest: Dest::ExistingSameLength }, true),
         ("remove", Op::Remove { key: 1 }, true),
         ("remove_hash", Op::RemoveHash { addr: a }, true),
         ("remove_fully", Op::RemoveOpts { key: 1, fully: true }, true),
@@ -421,6 +425,10 @@ impl Engine for C13 {
                                 let mut v = vec![EIO];
                                 if second != EIO {
                                     v.push(second);
+                                }
+                                // extractions: the destination may be somebody's the caller cannot write
+                                if matches!(op, Op::Extract { .. }) && path_call(g) && second != EACCES {
+                                    v.push(EACCES);
                                 }
                                 let _ = errnos_quick;
                                 v
